@@ -1,5 +1,6 @@
 import ActixModel.Proofs.Negotiate
 import ActixModel.Proofs.Encoder
+import ActixModel.Proofs.Decoder
 /-
 C13 — content coding is lossless, correctly labelled and correctly negotiated.
 
@@ -9,7 +10,7 @@ the `Compress` middleware) and `Model/Encoder.lean` (`Encoder::response`, `updat
 (`Lossless`).  Every theorem quantifies over all headers / bodies / chunkings / schedules.
 -/
 namespace ActixModel.C13
-open ActixModel.Util ActixModel.Negotiate ActixModel.Encoder
+open ActixModel.Util ActixModel.Negotiate ActixModel.Encoder ActixModel.Decoder
 
 /-! ## Spec: RFC 7231 §5.3.4 -/
 
@@ -358,7 +359,7 @@ theorem C13_stream_lossless_code (cd : Coding) (body : List BodyEv) (joins : Lis
     (hb : hasErr body = false) :
     toyDecode (outChunks (drive toyCodec (fuelFor (initEnc toyCodec (.encode cd)) body joins)
         (initEnc toyCodec (.encode cd)) body joins)).flatten = some (chunksOf body).flatten :=
-  (C13_stream_lossless inPlaceCode toyCodec toyDecode toy_lossless cd body joins hb _ (Nat.le_refl _)).1
+  (C13_stream_lossless Encoder.inPlaceCode toyCodec toyDecode toy_lossless cd body joins hb _ (Nat.le_refl _)).1
 
 /-- **C13_terminates**: from *any* encoder state, for any body script (including failing ones)
 and any schedule, the stream ends — `Ready(None)` or an error — within
@@ -622,5 +623,75 @@ theorem C13_no_header_no_encoding (h : Head) (ct : Option (String × String)) (b
   by_cases hpred : compressPredicate ct = true
   · simp only [hpred, ↓reduceIte]; exact ⟨hp.1, hp.2.1⟩
   · simp only [hpred, Bool.false_eq_true, ↓reduceIte]; exact ⟨hp.1, hp.2.1⟩
+
+/-! ## Request side: `Decoder` (`dev::Decompress`) -/
+
+/-- The law assumed of a decompression library for the coding whose compressed image of `orig` is
+`E orig`: however the image is cut into chunks, feeding them succeeds and the outputs, followed by
+the `feed_eof` output, are `orig`. -/
+def DecLossless (d : DCodec σ) (E : Bytes → Bytes) : Prop :=
+  ∀ (orig : Bytes) (xs : List Bytes), xs.flatten = E orig → decRest d d.init xs = some orig
+
+/-- the pass-through "decompressor" obeys the law for the identity coding (non-vacuity) -/
+theorem idDCodec_lossless :
+    DecLossless (σ := Unit) ⟨(), fun _ b => some (b, ()), fun _ => some []⟩ id := by
+  intro orig xs h
+  have : ∀ (xs : List Bytes) (u : Unit),
+      decRest (σ := Unit) ⟨(), fun _ b => some (b, ()), fun _ => some []⟩ u xs = some xs.flatten := by
+    intro xs
+    induction xs with
+    | nil => intro u; simp [decRest]
+    | cons x t ih => intro u; simp [decRest, ih]
+  rw [this, h]; rfl
+
+/-- **C13_request_decoded**: a request body sent with a supported Content-Encoding is delivered
+decoded and equal to the original — for every lawful decompressor, every cut of the compressed
+image into payload chunks, every placement of `Pending`s, every schedule of the blocking tasks and
+every split between the in-place and the blocking path; and the stream ends. -/
+theorem C13_request_decoded (inPlace : Bytes → Bool) (d : DCodec σ) (E : Bytes → Bytes)
+    (hl : DecLossless d E) (orig : Bytes) (body : List BodyEv) (joins : List Nat)
+    (hb : hasErr body = false) (henc : (chunksOf body).flatten = E orig) (fuel : Nat)
+    (hf : dFuelFor (initDec d true) body joins ≤ fuel) :
+    (outChunks (dDriveAt inPlace d fuel (initDec d true) body joins)).flatten = orig ∧
+    (dDriveAt inPlace d fuel (initDec d true) body joins).getLast? = some .done := by
+  have hmu : muD (initDec d true) body joins < fuel := by
+    simp only [dFuelFor, initDec] at hf; simp only [muD, initDec]; omega
+  apply dDrive_rem inPlace d fuel _ body joins orig hb _ hmu
+  simp only [remD, initDec, ↓reduceIte, Bool.false_eq_true]
+  exact hl orig _ henc
+
+/-- without a decompressor (no / `identity` / unknown Content-Encoding) the payload is handed on
+as it is -/
+theorem C13_request_passthrough (inPlace : Bytes → Bool) (d : DCodec σ) (body : List BodyEv)
+    (joins : List Nat) (hb : hasErr body = false) (fuel : Nat)
+    (hf : dFuelFor (initDec d false) body joins ≤ fuel) :
+    (outChunks (dDriveAt inPlace d fuel (initDec d false) body joins)).flatten = (chunksOf body).flatten ∧
+    (dDriveAt inPlace d fuel (initDec d false) body joins).getLast? = some .done := by
+  have hmu : muD (initDec d false) body joins < fuel := by
+    simp only [dFuelFor, initDec] at hf; simp only [muD, initDec]; omega
+  apply dDrive_rem inPlace d fuel _ body joins _ hb _ hmu
+  simp [remD, initDec]
+
+/-- **C13_request_terminates**: from any decoder state, any payload script and schedule, the
+decoded stream ends (`Ready(None)` or an error) within `2·|events| + Σ joins + 3` polls. -/
+theorem C13_request_terminates (inPlace : Bytes → Bool) (d : DCodec σ) (s : Dec σ) (body : List BodyEv)
+    (joins : List Nat) (fuel : Nat) (hf : dFuelFor s body joins ≤ fuel) :
+    ((dDriveAt inPlace d fuel s body joins).getLast? = some .done ∨
+      (dDriveAt inPlace d fuel s body joins).getLast? = some .err) ∧
+    (dDriveAt inPlace d fuel s body joins).length ≤ 2 * body.length + joins.sum + 3 := by
+  have hmu : muD s body joins < fuel := by simp only [dFuelFor] at hf; simp only [muD]; omega
+  obtain ⟨h1, h2⟩ := dDrive_terminates inPlace d fuel s body joins hmu
+  refine ⟨h1, ?_⟩
+  have : muD s body joins ≤ 2 * body.length + joins.sum + 2 := by
+    simp only [muD]; split <;> split <;> omega
+  omega
+
+/-- which labels get a decompressor: exactly br / gzip / deflate / zstd, case-insensitively,
+surrounding blanks ignored (finite table) -/
+theorem C13_decoder_selection :
+    decoderFor none = none ∧ decoderFor (some "identity") = none ∧ decoderFor (some "x-foo") = none ∧
+    decoderFor (some "gzip") = some .gzip ∧ decoderFor (some " GZip ") = some .gzip ∧
+    decoderFor (some "br") = some .br ∧ decoderFor (some "deflate") = some .deflate ∧
+    decoderFor (some "zstd") = some .zstd := by decide
 
 end ActixModel.C13
